@@ -3,6 +3,7 @@ import hashlib
 
 from hypothesis import strategies as st
 
+from vf import gen
 from vf.core import Fails, Target, attempt, bx, hx, raised
 from vf.ref import base58 as b58ref
 from vf.ref import bech32 as ref
@@ -488,7 +489,7 @@ def accept_cases(draw):
 def junk_cases(draw):
     kind = draw(st.sampled_from(["binary", "binary", "structured", "charset", "ones", "b58"]))
     if kind == "binary":
-        s = draw(st.binary(max_size=120))
+        s = draw(gen.sized_binary(120))
     elif kind == "structured":
         hrp = draw(st.sampled_from([b"bc", b"tb", b"bcrt", b"BC", b"TB", b"BCRT", b"", b"bc1", b"x"]))
         n = draw(st.sampled_from([0, 1, 5, 6, 7, 7, 8, 14, 40, 60, 84, 85, 86, 100]))
@@ -499,7 +500,7 @@ def junk_cases(draw):
             body[0] = draw(_repl)  # version position
         s = hrp + b"1" + bytes(body)
     elif kind == "charset":
-        s = _from_pool(draw(st.binary(max_size=100)), CHARSET + b"1")
+        s = _from_pool(draw(gen.sized_binary(100)), CHARSET + b"1")
     elif kind == "ones":
         s = b"1" * draw(st.integers(0, 100)) + draw(st.binary(max_size=8))
     else:
